@@ -259,7 +259,7 @@ class Check:
         on a run that already found violations (misbehaving code) it is only noted."""
         if cond:
             return True
-        if self.violations or self.known:
+        if self.violations:
             self.note("requirement not met (violations were found before): " + msg)
             return False
         raise MachineryError(msg)
